@@ -207,6 +207,7 @@ type runner struct {
 	burst  []chainItem
 
 	txn          client.Txn
+	sharedCtx    context.Context // set when the users of the shared transaction share one initialised context
 	commitStart  int64
 	commitEnd    int64
 	commitStatus int
@@ -320,7 +321,10 @@ type store interface {
 //
 //go:noinline
 func (r *runner) viaSharedTxn(f func(ctx context.Context, st store) (int, string)) (int, string) {
-	ctx := db.InitContext(r.ctx, r.txn)
+	ctx := r.sharedCtx
+	if ctx == nil {
+		ctx = db.InitContext(r.ctx, r.txn)
+	}
 	st, e := f(ctx, r.txn)
 	return st, e
 }
@@ -991,6 +995,9 @@ func runOnce(c Case, rep int) (fails []*hx.Failure, labels []string, history str
 		r.txn, err = r.tgt.DB.NewConcurrentTxn(r.ctx, false)
 		if err != nil {
 			hx.Harnessf("NewConcurrentTxn: %v", err)
+		}
+		if c.SharedCtx {
+			r.sharedCtx = db.InitContext(r.ctx, r.txn)
 		}
 	}
 
